@@ -5,7 +5,7 @@ CONSTANTS
   Vals <- ValsEX
   MaxLen = 4
   Phased = FALSE
-  InitFamily <- InitSubsets
+  InitFamily <- InitFew
   Ops <- OpsIterOnly
 INIT Init
 NEXT Next
